@@ -472,7 +472,7 @@ class DynDiGraph(nx.DiGraph):
         if nbunch is None:
             nodes_nbrs_succ = self._succ.items()
         else:
-            nodes_nbrs_succ = [(n, self._succ[n]) for n in self.nbunch_iter(nbunch)]
+            nodes_nbrs_succ = [(n, self._succ[n]) for n in dict.fromkeys(self.nbunch_iter(nbunch))]
 
         for n, nbrs in nodes_nbrs_succ:
             for nbr in nbrs:
@@ -697,7 +697,7 @@ class DynDiGraph(nx.DiGraph):
         if nbunch is None:
             nodes_nbrs_pred = self._pred.items()
         else:
-            nodes_nbrs_pred = [(n, self._pred[n]) for n in self.nbunch_iter(nbunch)]
+            nodes_nbrs_pred = [(n, self._pred[n]) for n in dict.fromkeys(self.nbunch_iter(nbunch))]
 
         for n, nbrs in nodes_nbrs_pred:
 
@@ -748,7 +748,7 @@ class DynDiGraph(nx.DiGraph):
         if nbunch is None:
             nodes_nbrs_succ = self._succ.items()
         else:
-            nodes_nbrs_succ = [(n, self._succ[n]) for n in self.nbunch_iter(nbunch)]
+            nodes_nbrs_succ = [(n, self._succ[n]) for n in dict.fromkeys(self.nbunch_iter(nbunch))]
 
         for n, nbrs in nodes_nbrs_succ:
             for nbr in nbrs:
